@@ -32,7 +32,7 @@ KEYWORDS = {"Top", "Bottom", "signature", "conditionals"}
 
 
 def budget(tier):
-    return {"examples": 6000 if tier == "quick" else 60000,
+    return {"examples": 12000 if tier == "quick" else 80000,
             "soft_seconds": 120 if tier == "quick" else 1500}
 
 
